@@ -14,7 +14,7 @@ LEVEL = "exploration"
 TECHNIQUE = "runtime monitors on Deltas.apply / Stack.apply with explicit-loop reference models (Kaldi delta recursion, stacking loops) and a read-only/digest write sanitizer"
 RULE = (
     "cases: seeded N-D shapes (1-4 dims, sizes from {0,1,2,3,5,8,13} with 0 only on non-filtered axes), every axis / target_axis / time_axis "
-    "value incl. negative, num_deltas 0-4, context windows 1-5, pad modes edge/constant/reflect/symmetric/wrap, num_vectors 1-6 incl. > frames, "
+    "value incl. negative, num_deltas 0-4, context windows 1-5, pad modes edge/constant/reflect/symmetric/wrap (+ linear_ramp, mean/median/maximum/minimum, a callable for Deltas), num_vectors 1-6 incl. > frames, "
     "float32/float64/int32, in_place, 2-D fast path vs the same data as 3-D; non-trivial = (Deltas) num_deltas >= 1 and >= 2 frames, "
     "(Stack) num_vectors >= 2 and >= 1 output frame; distinct by (op, shape, dtype, parameters)"
 )
@@ -32,6 +32,17 @@ LEVEL_TEXT = (
 LEVEL_NOTE = "Trusts np.pad for the meaning of padding modes and np.moveaxis for axis bookkeeping in the oracle."
 
 PAD_MODES = ["edge", "constant", "reflect", "symmetric", "wrap"]
+# modes whose padded values depend on how far the edge is extended
+MORE_PAD_MODES = ["linear_ramp", "mean", "median", "maximum", "minimum", "callable"]
+
+
+def _ramp_pad(vector, pad_width, iaxis, kwargs):
+    """callable np.pad mode: fades linearly to zero over the padded width"""
+    l, r = pad_width
+    if l:
+        vector[:l] = vector[l] * np.arange(l) / l
+    if r:
+        vector[-r:] = vector[-r - 1] * np.arange(r, 0, -1) / (r + 1)
 
 
 def kaldi_scales(order, window):
@@ -245,8 +256,14 @@ def run_case(case, rec, mon=None):
             target_axis = int(rng.integers(-ndim, ndim)) if concatenate else int(rng.integers(-ndim - 1, ndim + 1))
             nd = int(rng.integers(0, 5))
             W = int(rng.integers(1, 6))
-            mode = str(rng.choice(PAD_MODES))
+            mode = str(rng.choice(PAD_MODES + MORE_PAD_MODES))
             kwargs = {"constant_values": float(rng.integers(-3, 4))} if mode == "constant" and rng.random() < 0.5 else {}
+            if mode == "linear_ramp" and rng.random() < 0.5:
+                kwargs = {"end_values": float(rng.integers(-3, 4))}
+            if mode in ("mean", "median", "maximum", "minimum") and rng.random() < 0.5:
+                kwargs = {"stat_length": int(rng.integers(1, 4))}
+            if mode == "callable":
+                mode = _ramp_pad
             x = _data(rng, shape, dtype)
             x.setflags(write=False)
             d = P.Deltas(nd, target_axis=target_axis, concatenate=concatenate, context_window=W, pad_mode=mode, **kwargs)
@@ -257,7 +274,7 @@ def run_case(case, rec, mon=None):
                     d.apply(x, axis=axis, in_place=False)
             except Exception:
                 pass
-            last = {"shape": shape, "dtype": dtype, "axis": axis, "target_axis": target_axis, "concatenate": concatenate, "num_deltas": nd, "window": W, "pad_mode": mode}
+            last = {"shape": shape, "dtype": dtype, "axis": axis, "target_axis": target_axis, "concatenate": concatenate, "num_deltas": nd, "window": W, "pad_mode": str(mode)}
         else:
             time_axis = int(rng.integers(-ndim, ndim))
             axis = int(rng.integers(-ndim, ndim))
